@@ -86,6 +86,21 @@ CLAIMS['C16'] = dict(
     note='Trusted: tempfile (delete on drop, atomic persist_noclobber), reqwest, the file system. That the callback receives exactly the consumed bytes is C10.1.',
     ref='DESIGN.md §3 C16')
 
+CLAIMS['C17'] = dict(
+    technique='sanitiser-coverage dataflow on path components plus table extraction of the sanitiser itself; who-may-join',
+    text='Structural claim in two parts. Coverage: every component the four lookup functions join with "/" is lookup_leafname(..)? of the module\'s code/debug file, that leaf with a replaced extension, or identifier text (DebugId/CodeId), '
+         'and consumers join only FileLookup.cache_rel/server_rel or the code-info lookup result onto cache, symbol directories and server URLs. Adequacy: lookup_leafname is leafname() with the leaves "", "." and ".." rejected (its string tests are extracted from MIR) '
+         'and leafname takes the last piece after both separator styles, so no component is empty, `.` or `..` and none contains a separator. The traversal defect this exposed was repaired in /repo. Not decided: drive-prefix leaves like `C:x` on Windows.',
+    note='Trusted: debugid (hex identifiers), std::path join semantics, rustc MIR. The claim is about the code shape for all module names; no path is ever built or joined at check time.',
+    ref='DESIGN.md §3 C17')
+CLAIMS['C19'] = dict(
+    technique='value-shape dataflow (address ^ (1 << i) over constant ranges), gating dominance, constant folding of the confidence table',
+    text='Structural clauses of C19 decided for all inputs: each pushed candidate is address ^ (1 << i) with i the induction variable of the loop over BitRange::range(), whose three ranges are the constants 0..64, 0..48, 48..64, selected by adjusted-address kind and CPU; '
+         'each push is control-dependent on candidate == 0 or (memory_info_at_address(candidate) is Some and is_possibly_allowed_for); attempts are gated on 64-bit, non-ARM64, not null-pointer-with-offset, and try_bit_flips returns before the loop when the examined address is accessible; '
+         'confidence constants (incl. the NEARBY_REGISTER table, constant-folded) lie in [0,1], combine is 1 - prod(1 - v) and all other arithmetic is a product with such a constant. That memory_info_at_address is right is C08 behaviour, not decided.',
+    note='Trusted: rustc MIR, f32 monotonicity of products and 1 - x on [0,1].',
+    ref='DESIGN.md §3 C19')
+
 NOT_YET = {}
 NA = {
     'C14': 'every clause relates values of the result to values of the dump (which thread, which context, which address after masking); no clause has a structural form that would not also fire on behaviour-preserving rewrites, so static analysis does not apply; its panic-freedom is covered under C03',
